@@ -648,6 +648,148 @@ fn lsp_verdict(text: &str, history: Option<&[String]>) -> Result<&'static str, (
     }
 }
 
+// ---------------------------------------------------------------------------
+// Workspaces: programs of several modules through the three heads
+
+/// The multi-module programs of the fragments and the two-module products over the leaves.
+fn workspace_programs(thorough: bool) -> Vec<crate::gen::Program> {
+    let mut out = Vec::new();
+    for f in 4..crate::frags::NAMES.len() {
+        for p in crate::frags::fragment(f, false).programs.into_iter() {
+            if p.modules.len() > 1 {
+                out.push(p);
+            }
+        }
+    }
+    let all = crate::space::agnostic_exprs(2);
+    let terms: Vec<&crate::gen::E> = if thorough { all[1].iter().chain(all[2].iter().step_by(3)).collect() } else { all[1].iter().collect() };
+    for b in terms.iter() {
+        for a in terms.iter() {
+            for site in 0..crate::space::N_SITES {
+                // unqualified imports of a module that declares main's `v` again are rejected at
+                // once: keep one form of them
+                if site % 2 == 0 && site < 6 && site != 0 {
+                    continue;
+                }
+                out.push(crate::space::two_module(b, a, site));
+            }
+        }
+    }
+    out
+}
+
+fn files_cli(texts: &[(String, String)]) -> CliObs {
+    use std::os::unix::process::ExitStatusExt;
+    let dir = format!("/var/tmp/oalmc-{}-{}", std::process::id(), TMP_COUNTER.fetch_add(1, Ordering::SeqCst));
+    let _ = std::fs::remove_dir_all(&dir);
+    std::fs::create_dir_all(&dir).expect("cannot create temporary directory");
+    for (name, text) in texts {
+        let path = std::path::PathBuf::from(format!("{dir}/{name}"));
+        if let Some(parent) = path.parent() {
+            std::fs::create_dir_all(parent).expect("cannot create module directory");
+        }
+        std::fs::write(&path, text).expect("cannot write module");
+    }
+    let errf = std::fs::File::create(format!("{dir}/stderr.txt")).expect("cannot create stderr file");
+    let t0 = Instant::now();
+    let mut child = Command::new(cli_path())
+        .args(["-m", "main.oal", "-t", "out.yaml"])
+        .current_dir(&dir)
+        .env("RUST_BACKTRACE", "0")
+        .stdin(Stdio::null())
+        .stdout(Stdio::null())
+        .stderr(Stdio::from(errf))
+        .spawn()
+        .unwrap_or_else(|e| panic!("cannot run the CLI binary {}: {e}", cli_path()));
+    let mut timed_out = false;
+    let status = loop {
+        match child.try_wait() {
+            Ok(Some(st)) => break Some(st),
+            Ok(None) => {}
+            Err(_) => break None,
+        }
+        if t0.elapsed() > Duration::from_millis(CLI_TIMEOUT_MS) {
+            timed_out = true;
+            let _ = child.kill();
+            let _ = child.wait();
+            break None;
+        }
+        std::thread::sleep(Duration::from_millis(1));
+    };
+    let out_exists = std::path::Path::new(&format!("{dir}/out.yaml")).exists();
+    let stderr_head: String = std::fs::read(format!("{dir}/stderr.txt"))
+        .map(|b| String::from_utf8_lossy(&b[..b.len().min(4096)]).to_string())
+        .unwrap_or_default();
+    let _ = std::fs::remove_dir_all(&dir);
+    CliObs { code: status.and_then(|s| s.code()), signal: status.and_then(|s| s.signal()), timed_out, out_exists, stderr_head }
+}
+
+fn run_workspace_case(texts: &[(String, String)]) -> Outcome {
+    let shown = || texts.iter().map(|(n, t)| format!("{n}: {}", show(t))).collect::<Vec<_>>().join(" ; ");
+    let case = || json!({"subject": "workspace", "modules": crate::props::c01::texts_json(texts)["modules"]});
+    // 1. in-process: the library pipeline the front ends share
+    let files = crate::pipeline::files_of(texts);
+    let inproc = match crate::pipeline::run(&files, "main.oal") {
+        crate::pipeline::Run::LoadPanic(p) | crate::pipeline::Run::BackendPanic(p) => {
+            return Outcome::bad(
+                "violation",
+                format!("panic | {} | program of several modules", panic_site(&p)),
+                format!("panic at {}: {} on {}", p.location, p.message.chars().take(160).collect::<String>(), shown()),
+                case(),
+            )
+        }
+        crate::pipeline::Run::Doc(..) => "document",
+        _ => "diagnostics",
+    };
+    // 2. the real CLI
+    let o = files_cli(texts);
+    if o.timed_out {
+        return Outcome::bad("violation", "hang | oal-cli | no exit within the time limit | program of several modules".into(), shown(), case());
+    }
+    if let Some(sig) = o.signal {
+        return Outcome::bad("violation", format!("abort | oal-cli | killed by signal {sig} | program of several modules"), format!("{}; stderr: {}", shown(), show(&o.stderr_head)), case());
+    }
+    match (o.code, o.out_exists) {
+        (Some(0), true) | (Some(1), false) => {}
+        (Some(101), _) => {
+            let lines: Vec<&str> = o.stderr_head.lines().collect();
+            let site = stderr_panic_site(&lines).unwrap_or_else(|| "unknown site".to_owned());
+            return Outcome::bad("violation", format!("panic | oal-cli {site} | exit status 101 | program of several modules"), format!("{}; stderr: {}", shown(), show(&o.stderr_head)), case());
+        }
+        (c, e) => {
+            return Outcome::bad("violation", format!("exit status | oal-cli | status {c:?}, output file {} | program of several modules", if e { "written" } else { "not written" }), shown(), case());
+        }
+    }
+    // 3. the real language server on a folder with every file
+    let refs: Vec<(&str, &str)> = texts.iter().map(|(n, t)| (n.as_str(), t.as_str())).collect();
+    let ws = TempWorkspace::new(&refs).expect("cannot create the LSP workspace");
+    let mut srv = LspServer::start(ws.path()).unwrap_or_else(|e| panic!("cannot start the language server ($OAL_LSP): {e}"));
+    srv.timeout = Duration::from_millis(LSP_TIMEOUT_MS);
+    let mut step = || -> Result<(), LspError> {
+        for (n, t) in texts.iter() {
+            srv.open(n, t)?;
+            srv.sync()?;
+        }
+        Ok(())
+    };
+    if let Err(e) = step() {
+        let (kind, cause) = match e {
+            LspError::ServerDied(_) => {
+                let generic = srv.death_cause();
+                ("server died", match stderr_panic_site(&srv.stderr_tail()) {
+                    Some(site) => format!("panic {site}"),
+                    None => generic,
+                })
+            }
+            LspError::Timeout => ("hang", "no answer to the request within the time limit".to_owned()),
+            LspError::Protocol(m) => ("protocol error", m.chars().take(60).collect()),
+        };
+        return Outcome::bad("violation", format!("{kind} | oal-lsp {cause} | every module opened, one request after each | program of several modules"), shown(), case());
+    }
+    srv.shutdown();
+    Outcome::ok(if inproc == "document" { "workspace: output" } else { "workspace: diagnostics" }, Some(hash_of(&(inproc, o.code))))
+}
+
 fn run_lsp_case(text: &str) -> Outcome {
     match lsp_verdict(text, None) {
         Ok(tag) => Outcome::ok(tag, None),
@@ -698,6 +840,10 @@ impl Engine for C04 {
                 p_mut(2, 12),
             ));
         }
+        spaces.push((
+            "corpus with one token of the full alphabet inserted at one site".into(),
+            p_ins(if thorough { 100_000 } else { 40 }),
+        ));
         spaces.push(("nesting families".into(), p_nest(thorough)));
         // Parseable programs: the single-module members of the program spaces of C01/C02
         // (every expression tree of <= k constructors in every one-hole context, the
@@ -751,11 +897,36 @@ impl Engine for C04 {
                 phases.push(Phase::new(&name, param).workers(8));
             }
         }
+        phases.push(
+            Phase::new(
+                "workspaces: the multi-module programs (fragments F5-F11, two-module products over the leaves x 12 use sites) through the in-process pipeline, oal-cli in a directory holding every file, and oal-lsp on a folder holding every file",
+                json!({"subject": "workspace", "thorough": thorough}),
+            )
+            .workers(8),
+        );
         phases
     }
     fn run_phase(&self, phase: &Phase, sink: &mut Sink) {
         let p = &phase.param;
         match p["subject"].as_str() {
+            Some("workspace") => {
+                let progs = workspace_programs(p["thorough"].as_bool().unwrap_or(false));
+                for (i, prog) in progs.iter().enumerate() {
+                    let idx = i as u64;
+                    if !sink.mine(idx) {
+                        continue;
+                    }
+                    if sink.expired() {
+                        return;
+                    }
+                    let texts = crate::gen::print(prog).texts;
+                    sink.visit(
+                        idx,
+                        || json!({"subject": "workspace", "modules": crate::props::c01::texts_json(&texts)["modules"]}),
+                        |_| run_workspace_case(&texts),
+                    );
+                }
+            }
             Some(subject @ ("cli" | "lsp")) => {
                 let lsp = subject == "lsp";
                 if p["space"] == "classes" {
@@ -792,6 +963,9 @@ impl Engine for C04 {
     }
     fn replay(&self, case: &Value) -> Outcome {
         let text = case["text"].as_str().unwrap_or("");
+        if case["subject"] == "workspace" {
+            return run_workspace_case(&crate::props::c01::texts_from_json(case));
+        }
         if case["subject"] == "cli" {
             match check_cli(text) {
                 Ok(tag) => Outcome::ok(tag, None),
